@@ -271,9 +271,13 @@ def check_or_defaults(ctx: Ctx, base: Optional[str], floor: int = 1) -> None:
 
     ns = 0
     for g in ctx.program.all_functions():
-        if g.name != "setup" or g.cls is None:
+        if g.cls is None or (g.name != "setup" and base is not None):
             continue
+        if g.name != "setup" and not ctx.program.is_subclass(g.cls.name, "Runner"):
+            continue  # besides setup(settings), the runners read configuration blocks held in locals
         names = {p for p in g.params if "setting" in p}
+        if g.name != "setup":
+            names |= {n.id for n in _ast.walk(g.node) if isinstance(n, _ast.Name) and isinstance(n.ctx, _ast.Store) and "setting" in n.id}
         if not names:
             continue
         if base is not None and not ctx.program.is_subclass(g.cls.name, base):
